@@ -172,7 +172,10 @@ struct FaultCfg {
 	uint64_t max_delay = 0;
 	uint64_t dr0 = 0, dr1 = 0; int dr_host = -1;   // drought: every datagram sent by host dr_host in [dr0, dr1) is lost
 	char hold_cmd = 0; uint64_t hold_delay = 0; int hold_dir = 0;   // every DNS datagram in the window whose question starts with this command letter is held back (dir 0: queries, 1: answers, 2: both)
-	bool enabled() const { return t1 > t0 || dr1 > dr0; }
+	// rawlate: the client tried raw mode during its handshake; every raw frame of the server is lost (the client carries on in DNS
+	// mode) and copies of the client's raw login datagrams arrive rawlate_min..rawlate_max us late, i.e. in the middle of the DNS-mode session
+	bool rawlate = false; uint64_t rawlate_min = 0, rawlate_max = 0;
+	bool enabled() const { return t1 > t0 || dr1 > dr0 || rawlate; }
 };
 
 struct Event {
